@@ -396,6 +396,16 @@ mod harnesses {
         assert!(m.get(&k) == Some(&30));
     }
 
+    /// C01: collect() is insert-by-insert: the last value given for a repeated key wins (concrete input)
+    #[kani::proof]
+    #[kani::unwind(6)]
+    fn from_iter_last_value_wins() {
+        let v = [(1u8, 10u8), (1, 30)];
+        let m: Map = v.iter().cloned().collect();
+        assert!(m.len() == 1);
+        assert!(m.get(&1) == Some(&30));
+    }
+
     /// C08/C01: extend() into an emptied map that kept its capacity keeps one entry per key
     #[kani::proof]
     #[kani::unwind(6)]
@@ -420,6 +430,73 @@ mod harnesses {
         assert!(s.get(&Tagged { id: 7, tag: 0 }).unwrap().tag == 1);
         assert!(s.replace(Tagged { id: 7, tag: 2 }).unwrap().tag == 1);
         assert!(s.get(&Tagged { id: 7, tag: 0 }).unwrap().tag == 2);
+    }
+
+    /// C01: insert on a present key replaces the value and keeps the key that is stored (unsplit; the split case is
+    /// insert_keeps_stored_key_split in the thorough tier)
+    #[kani::proof]
+    #[kani::unwind(6)]
+    fn map_insert_keeps_stored_key() {
+        let mut m: HashMap<Tagged, u8, Seeded> = HashMap::with_hasher(Seeded(0));
+        assert!(m.insert(Tagged { id: 7, tag: 1 }, 10).is_none());
+        let t: u8 = kani::any();
+        assert!(m.insert(Tagged { id: 7, tag: t }, 11) == Some(10));
+        assert!(m.len() == 1);
+        let (k, v) = m.get_key_value(&Tagged { id: 7, tag: 0 }).unwrap();
+        assert!(k.tag == 1 && *v == 11);
+    }
+
+    /// C08: into_iter of a split map yields every element exactly once and reports an exact length at every step
+    #[kani::proof]
+    #[kani::unwind(12)]
+    fn into_iter_split_all() {
+        let m = split_map(0);
+        let mut it = m.into_iter();
+        let mut seen: u16 = 0;
+        let mut n = 0usize;
+        while n < 8 {
+            assert!(it.len() == 8 - n);
+            match it.next() {
+                Some((k, v)) => {
+                    assert!(v == k.wrapping_add(100) && k < 8);
+                    assert!(seen & (1 << k) == 0);
+                    seen |= 1 << k;
+                }
+                None => panic!("into_iter ended early"),
+            }
+            n += 1;
+        }
+        assert!(it.len() == 0 && it.next().is_none());
+    }
+
+    /// C08/C05: drain of a split map yields every element once, leaves an empty unsplit map, and the map is usable afterwards
+    #[kani::proof]
+    #[kani::unwind(12)]
+    fn drain_split_then_reuse() {
+        let mut m = split_map(0);
+        let mut seen: u16 = 0;
+        let mut n = 0usize;
+        {
+            let mut d = m.drain();
+            while n < 8 {
+                assert!(d.len() == 8 - n);
+                match d.next() {
+                    Some((k, v)) => {
+                        assert!(v == k.wrapping_add(100) && k < 8);
+                        assert!(seen & (1 << k) == 0);
+                        seen |= 1 << k;
+                    }
+                    None => panic!("drain ended early"),
+                }
+                n += 1;
+            }
+            assert!(d.next().is_none());
+        }
+        assert!(m.len() == 0 && m.iter().next().is_none());
+        let st = m.verif_state();
+        assert!(st.old.is_none());
+        m.insert(3, 4);
+        assert!(m.len() == 1 && m.iter().count() == 1 && m.get(&3) == Some(&4));
     }
 
     /// C13: is_disjoint follows the definition also for aliased and empty operands
